@@ -275,9 +275,6 @@ Proof.
   induction l1 as [| [a v] r IH]; intros l2 m; [reflexivity |].
   cbn [apply_writes app]. apply IH.
 Qed.
-Lemma aw_app1 : forall m (a : Z) l, apply_writes l m a = apply_writes l m a.
-Proof. reflexivity. Qed.
-
 (* ---------------------------------------------------------------- Step, by addressing mode *)
 (* besides [same s _] the abstracted states carry [mem _ = mem s] (an equality of functions: every
    construct of Step before the routine preserves the memory by conversion) *)
@@ -288,8 +285,27 @@ Ltac note_mem s' E :=
         lazymatch E with context [x] => assert (mem s' = m) by (subst s'; exact H) end
     end
   | idtac ].
-Ltac note_facts s' E ::= note_fact f_stepPC s' E; note_fact f_StepInfo_Mode s' E; note_fact f_StepInfo_Addr s' E;
-                         note_fact f_StepInfo_EA s' E; note_mem s' E.
+Ltac jnote_facts s' E :=
+  note_fact f_stepPC s' E; note_fact f_StepInfo_Mode s' E; note_fact f_StepInfo_Addr s' E;
+  note_fact f_StepInfo_EA s' E; note_mem s' E.
+(* [head_let] / [abs_state2] of C01Base / C01Flow with the extended set of facts (copied rather than
+   re-bound with ::= so that importing this file does not change the tactics of the other families) *)
+Ltac jhead_let s :=
+  lazymatch goal with
+  | |- ?Q (let x := ?E in @?B x) =>
+      lazymatch type of E with
+      | st => let s' := fresh "sp" in let H := fresh "Hs" in
+              pose (s' := E); assert (H : same s s') by (subst s'; same_solver);
+              jnote_facts s' E;
+              change (Q (B s')); cbv beta; clearbody s'
+      | _ => change (Q (B E)); cbv beta
+      end
+  end.
+Ltac jabs_state s E :=
+  let s' := fresh "sp" in let H := fresh "Hs" in
+  pose (s' := E); assert (H : same s s') by (subst s'; same_solver);
+  jnote_facts s' E;
+  change E with s'; clearbody s'.
 
 Definition opnd (s : st) (k : Z) : Z := mem s (get f_RK s * 65536 + add16 (get f_PC s) k) mod 256.
 Arguments opnd : simpl never.
@@ -303,17 +319,17 @@ Proof. intros h l Hh Hl. rewrite join16 by assumption. lia. Qed.
 Ltac step_prelude s Hk Hpc Hop Hmode m :=
   pose proof (eq_refl (mem s));
   cbv beta delta [Step];
-  head_let s; head_let s;
+  jhead_let s; jhead_let s;
   match goal with H2 : w_eqb (get f_Interrupt s) 2 = false, H3 : w_eqb (get f_Interrupt s) 3 = false |- _ =>
     rewrite H2, H3 end;
-  head_let s;
+  jhead_let s;
   cbv beta delta [cb_pc]; rewrite bind_Ok; cbv beta;
   match goal with |- context [onpc ?a ?b] => destruct (onpc a b) end;
-  [ match goal with |- context [log ?e ?x] => abs_state2 s (log e x) end | idtac ];
-  head_let s; head_let s; fetch_op s Hk Hpc Hop;
-  head_let s; rewrite Hmode; head_let s;
-  match goal with |- context [log ?e ?x] => abs_state2 s (log e x) end;
-  repeat head_let s;
+  [ match goal with |- context [log ?e ?x] => jabs_state s (log e x) end | idtac ];
+  jhead_let s; jhead_let s; fetch_op s Hk Hpc Hop;
+  jhead_let s; rewrite Hmode; jhead_let s;
+  match goal with |- context [log ?e ?x] => jabs_state s (log e x) end;
+  repeat jhead_let s;
   mode_chain m.
 
 Ltac add16_rng := unfold add16, sub16; apply Z.mod_pos_bound; lia.
@@ -330,7 +346,7 @@ Ltac rd_mems s :=
   repeat match goal with H : same s ?x |- context [mem ?x _] => rewrite !(proj2 H) end.
 
 Ltac step_tail s HQ :=
-  repeat first [ head_let s | match goal with |- ?Q' (if ?c then _ else _) => destruct c end ];
+  repeat first [ jhead_let s | match goal with |- ?Q' (if ?c then _ else _) => destruct c end ];
   facts_to_initial2 s; apply HQ; assumption.
 
 Ltac step_intro s Hk Hpc Hop Hmode HQ :=
@@ -344,14 +360,14 @@ Ltac read_o16 s :=
   rd_gets s; rewrite nRead16_wrap_ok by (assumption || add16_rng); rewrite bind_Ok; cbv beta;
   rd_mems s; rewrite !add16_add16; change (1 + 1) with 2; fold (opnd s 1); fold (opnd s 2);
   rewrite join_o16 by apply opnd_range;
-  match goal with |- context [log ?e (log ?e' ?x)] => abs_state2 s (log e (log e' x)) end.
+  match goal with |- context [log ?e (log ?e' ?x)] => jabs_state s (log e (log e' x)) end.
 
 Ltac prove_step_o16 m :=
   let s := fresh "s" in let Hk := fresh "Hk" in let Hpc := fresh "Hpc" in let Hop := fresh "Hop" in
   let Hmode := fresh "Hmode" in let HQ := fresh "HQ" in
   step_intro s Hk Hpc Hop Hmode HQ;
   step_prelude s Hk Hpc Hop Hmode m;
-  read_o16 s; head_let s; step_tail s HQ.
+  read_o16 s; jhead_let s; step_tail s HQ.
 
 (* modes 1 (abs: JMP, JSR), 18 ((abs): JMP), 19 ([abs]: JML): the operand word is StepInfo.Addr *)
 Lemma Step_abs1 : forall s op (Q : res (word * bool) -> Prop),
@@ -395,7 +411,7 @@ Lemma Step_rel24 : forall s op (Q : res (word * bool) -> Prop),
   Q (Step s).
 Proof.
   step_intro s Hk Hpc Hop Hmode HQ.
-  step_prelude s Hk Hpc Hop Hmode 24; read_o16 s; head_let s; head_let s; step_tail s HQ.
+  step_prelude s Hk Hpc Hop Hmode 24; read_o16 s; jhead_let s; jhead_let s; step_tail s HQ.
 Qed.
 
 (* modes 5 (imm8: WDM, COP, REP, SEP) and 22 (block move): no operand read, StepInfo.Addr = PC+1 *)
@@ -454,8 +470,8 @@ Proof.
   rd_gets s; rewrite nRead24_wrap_ok by (assumption || add16_rng); rewrite bind_Ok; cbv beta;
   rd_mems s; rewrite !add16_add16; change (1 + 1) with 2; change (1 + 2) with 3;
   fold (opnd s 1); fold (opnd s 2); fold (opnd s 3);
-  match goal with |- context [log ?e (log ?e' (log ?e'' ?x))] => abs_state2 s (log e (log e' (log e'' x))) end;
-  head_let s; step_tail s HQ.
+  match goal with |- context [log ?e (log ?e' (log ?e'' ?x))] => jabs_state s (log e (log e' (log e'' x))) end;
+  jhead_let s; step_tail s HQ.
 Qed.
 
 (* mode 17 ((abs,X): JMP, JSR): StepInfo.EA is PBR:(operand + X); the pointer word Step reads there is
@@ -472,11 +488,11 @@ Lemma Step_indx17 : forall s op (Q : res (word * bool) -> Prop),
 Proof.
   step_intro s Hk Hpc Hop Hmode HQ. unfold xreg in HQ.
   step_prelude s Hk Hpc Hop Hmode 17;
-  read_o16 s; head_let s; head_let s; rd_gets s;
+  read_o16 s; jhead_let s; jhead_let s; rd_gets s;
   (revert HQ; destruct (w_eqb (get f_X s) 1); intro HQ);
-  head_let s; cbv beta;
+  jhead_let s; cbv beta;
   rd_gets s; rewrite nRead16_wrap_ok by (assumption || add16_rng); rewrite bind_Ok; cbv beta;
-  match goal with |- context [log ?e (log ?e' ?x)] => abs_state2 s (log e (log e' x)) end;
-  head_let s; rd_gets s; rewrite bank_addr by (assumption || add16_rng);
-  head_let s; step_tail s HQ.
+  match goal with |- context [log ?e (log ?e' ?x)] => jabs_state s (log e (log e' x)) end;
+  jhead_let s; rd_gets s; rewrite bank_addr by (assumption || add16_rng);
+  jhead_let s; step_tail s HQ.
 Qed.
